@@ -62,6 +62,8 @@ type c08ParserReuse struct {
 	ops   []c08POp // history operations first, then the probes
 	hist  []int    // indexes into ops usable inside histories
 	fresh [][]string
+	// stream is the round-3 sub-part: line-by-line sessions on reused parsers
+	stream *c08ReuseStream
 }
 
 func c08ErrStr(err error) string {
@@ -218,6 +220,11 @@ func c08NewParserReuse() *c08ParserReuse {
 		c08OpWordsSeq("a 'b c' \"d\n e", 1),
 		c08OpInteractive("a; b 'x\ny' c\nd <<E\nbody\n", -1),
 		c08OpInteractive("a\nb 'x\ny'\n", 0),
+		// round 3: the other places where the input can end inside a literal
+		c08OpParse("echo $'unclosed"),
+		c08OpParse("echo ${a:-'b"),
+		c08OpInteractive("a\n# c \\\n", -1),   // ends right after a comment whose line ends in a backslash
+		c08OpStmtsSeq("a <<'E'\nbody \\", -1), // ends inside a quoted here-document body, after a backslash
 	}
 	probes := []c08POp{
 		c08OpParse(""),
@@ -244,11 +251,17 @@ func c08NewParserReuse() *c08ParserReuse {
 		c08OpWordsSeq("a 'b' \"c\"\nd", -1),
 		c08OpStmtsSeq("a; b\nc <<E\nx\nE\n", -1),
 		c08OpInteractive("a\nb 'x\ny'\n\nc <<E\nbody\nE\nif a\nthen b\nfi; c \\\nd\n", -1),
+		// round 3: inputs whose first callbacks come before the first word
+		// (the full space of such inputs is run per state by runStream)
+		c08OpInteractive("\n  \n\t\n# c\na 'x\ny'\n", -1),
+		c08OpInteractive("# c \\\n\n \nb\n", -1),
+		c08OpInteractive(" \\\n\n# c\n\n", -1),
 	}
 	r.ops = append(append([]c08POp{}, hist...), probes...)
 	for i := range hist {
 		r.hist = append(r.hist, i)
 	}
+	r.stream = c08NewReuseStream(len(r.opts))
 	r.fresh = make([][]string, len(r.opts))
 	for oi, o := range r.opts {
 		r.fresh[oi] = make([]string, len(r.ops))
